@@ -396,9 +396,11 @@ class Item:
                     if aname == "derive":
                         # Copy/Clone have type-system meaning (moves); keep exactly those, drop the rest
                         names = [x.text for x in inner[2:-1] if x.kind == "ident"]
-                        keep = [n for n in ("Clone", "Copy") if n in names]
+                        keep = [n for n in ("Clone", "Copy", "PartialEq", "Eq") if n in names]
                         dropped_attrs.append("".join(x.text for x in toks[i:k + 1]) + (" (kept: " + ",".join(keep) + ")" if keep else ""))
-                        if "Copy" in keep:
+                        if "Copy" in keep and "PartialEq" in keep and "Eq" in keep:
+                            out.append("#[derive(Clone, Copy, PartialEq, Eq, Structural)]")
+                        elif "Copy" in keep:
                             out.append("#[derive(Clone, Copy)]")
                         i = k + 1
                         continue
